@@ -81,6 +81,11 @@ CHECKS = {
             "All label layouts of length 1..4 (quick) / 1..5 (thorough) over 2..4 declared classes x the full small parameter grid of the ten label-rewriting wrappers (group sizes dividing the class count, split counts, swap probabilities, hard/soft/thresholded/top-k pseudo labels with seeds and temperatures, world sizes, random-class modes, semi percentages, smoothing values): bulk (library getall) vs per-sample labels, label range vs getshape_class, wrapped data and wrapped label list untouched, reproducibility under a different global RNG state, encodings non-negative/sum one/original class maximal, and a bulk-consuming wrapper on top.",
             "Trusted: harness base dataset that hands out its internal label list; two known findings (vector-label wrappers without bulk accessor) are listed in known_findings.json.",
             "DESIGN.md section 5 C16"),
+    "C17": ("E1-choice", "exploration",
+            "stateless choice-point exploration (ChoiceRng injected via set_rng) with a deviation bound, plus real seeded generators as one more bounded dimension",
+            "DINO mask collator on grids 3x3..6x6, two ratio ranges, three mask probabilities, 1-2 views, batch sizes 1..4, min patch counts; I-JEPA collator on grids 4..8, three scale/aspect menus restricted to the stated domain (computed per configuration), 1-2 encoder and 1-3 predictor masks, min_keep 0..3, tries=1, steps 0..3: every execution with <=1 (quick) / <=2 (thorough) non-default RNG answers (capped per configuration; caps hit are counted and the run is then not called exhaustive) and real generators with seeds 0..15 are run on the real collators; oracles from the statement (count and ratio budget, boolean grid shape, index tensors in range/sorted/unique, predictor rectangles of one size, encoder/predictor disjointness where claimed, common lengths, block size a function of the step only, batch passes through).",
+            "Trusted: domain computation (block sizes per step taken from the collator's own size sampling with torch's seeded generator); executions beyond the deviation bound / cap are not covered.",
+            "DESIGN.md section 5 C17"),
     "C18": ("E1-choice", "exploration",
             "exhaustive enumeration of collator sequences x modes x context settings x entry points against a reference model of the single default collation",
             "Every sequence of 1..3 recording collators over collation modes {None, before, after} (with and without added context keys) through the compose collator, the single collator called directly and the single-collator wrapper, three dataset modes, with/without per-sample contexts, batch sizes 1..3: default_collate calls are counted by a harness wrapper and compared with the reference model (exactly one collation at the position asked for, what each member observes, sequences that must be rejected), output layout and content, (batch, ctx) iff configured, context keys neither lost nor invented and batched; shipped mix+mask collators in one pipeline; padding collator on every length profile {1,2,3}^b (b<=3) with fixed, second variable-length and scalar fields.",
